@@ -132,16 +132,18 @@ type rpcEnv struct {
 	acked    map[int64]bool
 	arrivals map[uint64]int // uid -> times it arrived at the server
 	onReq    func(e *rpcEnv, p pendingReq, in *mtp.Inner) bool // true: handled (do not queue)
+	onAny    func(e *rpcEnv, cn *refserver.Conn, in *mtp.Inner) bool // sees every message first; true: consumed
 	newReq   chan struct{}
 }
 
 type envOpts struct {
 	Fresh   bool // do a key exchange instead of resuming
 	Handler func(e *rpcEnv, p pendingReq, in *mtp.Inner) bool
+	Any     func(e *rpcEnv, cn *refserver.Conn, in *mtp.Inner) bool
 }
 
 func newRPCEnv(c *wk.Ctx, idx int, r *rand.Rand, o envOpts) (*rpcEnv, error) {
-	e := &rpcEnv{c: c, idx: idx, w: newWorld(c, idx), sentCont: map[int64]bool{}, acked: map[int64]bool{}, arrivals: map[uint64]int{}, onReq: o.Handler, newReq: make(chan struct{}, 1024)}
+	e := &rpcEnv{c: c, idx: idx, w: newWorld(c, idx), sentCont: map[int64]bool{}, acked: map[int64]bool{}, arrivals: map[uint64]int{}, onReq: o.Handler, onAny: o.Any, newReq: make(chan struct{}, 1024)}
 	e.srv = e.w.server(refserver.HandlerFunc(e.onMessage))
 	e.sess = e.w.sessionPath("s")
 	if !o.Fresh {
@@ -190,6 +192,20 @@ func (e *rpcEnv) salt() int64 {
 // onMessage runs on the server's connection goroutine for every decrypted client message.
 func (e *rpcEnv) onMessage(cn *refserver.Conn, in *mtp.Inner) {
 	rec := recvRec{Conn: cn.ID, Salt: in.Salt, Sess: in.Session, MsgID: in.MsgID, SeqNo: in.SeqNo, Ctor: u32le0(in.Body)}
+	if e.onAny != nil && e.onAny(e, cn, in) {
+		if ids := refserver.ParseMsgsAck(in.Body); ids != nil {
+			rec.Acks = ids
+		} else if uid, kind, _, ok := answerFor(in.Body); ok {
+			rec.UID, rec.Kind = uid, kind
+			e.mu.Lock()
+			e.arrivals[uid]++
+			e.mu.Unlock()
+		}
+		e.mu.Lock()
+		e.recv = append(e.recv, rec)
+		e.mu.Unlock()
+		return
+	}
 	if ids := refserver.ParseMsgsAck(in.Body); ids != nil {
 		rec.Acks = ids
 		e.mu.Lock()
